@@ -196,7 +196,6 @@ class ModuleVistor(NodeVisitor):
                 raise self.SkipNode()
 
     def visit_Module(self, node: ast.Module) -> None:
-        assert self.module.docstring is None
         Parentage().visit(node)
 
         self.builder.push(self.module, 0)
